@@ -25,6 +25,15 @@ func (ioc *IO) VerifRegistered(fd int) bool {
 	return ok
 }
 
+// VerifRegisteredAddr returns the address of the slot the registry of in-flight objects holds for this descriptor (0 if none):
+// compared with VerifSlotAddr it tells whose slot is kept alive under that number.
+func (ioc *IO) VerifRegisteredAddr(fd int) uintptr {
+	if fd >= 0 && fd < len(ioc.pending.static) {
+		return uintptr(unsafe.Pointer(ioc.pending.static[fd]))
+	}
+	return uintptr(unsafe.Pointer(ioc.pending.dynamic[fd]))
+}
+
 // VerifPendingTimers returns the number of timers the IO context keeps alive.
 func (ioc *IO) VerifPendingTimers() int { return len(ioc.pendingTimers) }
 
